@@ -6,8 +6,10 @@ operations, every "pick a live object" is an index modulo the pool size) +
 the end) + ``drain`` (the order/chunking in which the survivors are consumed
 at the end).  The history is interpreted against (real object, list model).
 """
+import os
 import sys
 import math
+import pickle
 from fractions import Fraction
 from hypothesis import strategies as st
 from vlib.core import Clause, Enumerated, Violation
@@ -21,7 +23,11 @@ RULE = ("cases = histories (initial pool of 1-3 finite / generator-backed / peri
         "constant / bounded-endless streams or thubs, then <=12 (quick) / <=40 (thorough) "
         "steps take peek skip limit append map filter copy tee thub use next for list "
         "(counts: None, ints, floats incl. halves and floats 1-3 ulps from a half / an integer, +-inf, nan), "
-        "then a generated drain schedule) drawn by Hypothesis, plus an exhaustive grid of "
+        "then a generated drain schedule) drawn by Hypothesis; long histories (the same 1-2 in-place stages, "
+        "with or without a small read in between, repeated 2600-4000 (thorough -6000) times on one stream that may "
+        "have copies or be a thub use, then read); every list returned by take/peek is written to in place by the "
+        "caller right after it was compared (later results must not show it); thubs also start out advanced by the "
+        "documented Stream.take(hub, n); plus an exhaustive grid of "
         "(source kind, length, [filter/map stage,] consumed prefix, method, count); oracle = immutable list "
         "model (finite prefix + optional cycle) evaluated step by step: every return "
         "value, every exception, and the next <=8 items of every live object; "
@@ -36,7 +42,11 @@ ASSUMPTIONS = [
   "a stream handed to append/tee/thub/Stream() is dead afterwards (documented) and is not used again",
   "'use' of a thub = anything that calls iter() on it: Stream(hub), iter(hub), tee(hub), thub(hub), append(hub), hub.skip/limit/append/map/filter; hub.peek/hub.copy use none but need one to be left",
   "skip/limit/append/map/filter on a Stream are in-place (return self), as the anchored code documents",
-  "harness safety, not oracle: endless content mostly comes from a pull-bounded source (OverRead past 16384 pulls); on streams backed by itertools.cycle/repeat a filter that passes every cycle element is skipped, and the process address space is capped so that eager consumption of an endless stream ends in MemoryError (a violation) instead of exhausting the machine",
+  "a container returned by take/peek belongs to the caller: it is a fresh value, so writing to it changes no later result (the list model is immutable)",
+  "history length is bounded by the check's budget only: thousands of stacked stages are a legal history (depths stay 4x below where CPython's C stack ends for nested itertools objects)",
+  "Stream.take(hub, n) is used only as documented in StreamTeeHub.take: on a thub nothing was read or peeked from yet; it removes the first n items for every use",
+  "what a stream does after a map/filter function raised for an element is not judged: the list model gives a partial function no value, and the unchanged code is not uniform there (a later skip/limit stage ends the stream, a peek or a copy swallows the failing position)",
+  "harness safety, not oracle: endless content mostly comes from a pull-bounded source (OverRead past 32768 pulls); on streams backed by itertools.cycle/repeat a filter that passes every cycle element is skipped, and the process address space is capped so that eager consumption of an endless stream ends in MemoryError (a violation) instead of exhausting the machine",
 ]
 
 
@@ -79,8 +89,28 @@ _cap_memory()
 
 INF = float("inf")
 K_INV = 8        # items compared per live object
-BOUND = 1 << 14  # pull bound of the bounded endless source (an eager stage trips it)
+BOUND = 1 << 15  # pull bound of the bounded endless source (an eager stage trips it)
 POOL_MAX = 12
+DEEP = 2600      # stacked stages beyond the default recursion limit + the 2000 frames Hypothesis reserves
+
+
+class _Mine(object):
+  """What the caller writes into a container it got back: never a stream item."""
+  def __repr__(self):
+    return "<written by the caller>"
+
+
+MINE = _Mine()
+
+
+def scribble(r):
+  """The caller owns what take/peek returned: it works on the list in place.
+  A later result that shows any of this is not a value of the list model."""
+  if type(r) is list:
+    r.reverse()
+    r.append(MINE)
+    if len(r) % 2:
+      r[0] = MINE
 
 
 def _num(v):
@@ -274,6 +304,10 @@ class E(object):
     self.fam = fam          # family id shared by copies / tee outputs / hub uses
     self.uses = uses        # hub: uses left
     self.pending = pending  # 'skip' / 'limit' beyond the end applied lazily (defect site)
+    self.depth = 0          # in-place stages (skip limit append map filter) stacked on the iterator
+    self.deepskip = False   # >= 1000 of them are skip stages
+    self.nskip = 0
+    self.lastpeek = None    # hub: the last peek request (n, constructor), None after anything else
 
 
 class Run(object):
@@ -308,6 +342,8 @@ class Run(object):
       site = None
       if e is not None and e.pending:
         site = "Stream.%s beyond the end" % e.pending
+      if e is not None and isinstance(exc, RecursionError) and e.nskip >= 600:
+        site = "Stream.skip stacked deep"
       self.fail("%s raised %s: %s (model %r)" % (what, type(exc).__name__, exc,
                                                  e.m if e is not None else None),
                 site=site or self.site)
@@ -324,12 +360,34 @@ class Run(object):
       self.labels.add("interleaved copies")
       self.nontrivial = True
 
-  def add_stream(self, obj, m, fam, pending=None, hard=False):
+  def add_stream(self, obj, m, fam, pending=None, hard=False, parent=None):
     if not isinstance(obj, Stream):
       self.fail("expected a Stream, got %r" % (type(obj).__name__,))
     ne = E("s", obj, m, fam, pending=pending, hard=hard)
+    if parent is not None:
+      ne.depth, ne.nskip = parent.depth, parent.nskip
     self.pool.append(ne)
     return ne
+
+  def stage(self, e, op):
+    """One more in-place stage on e's iterator."""
+    e.depth += 1
+    if op == "skip":
+      e.nskip += 1
+
+  def reading(self, e):
+    """A read that pulls items through e's stages."""
+    if e.depth >= DEEP:
+      self.labels.add("read through %d+ stages" % DEEP)
+      self.nontrivial = True
+
+  def peeked(self, e, n, ctor):
+    key = (type(n).__name__, repr(n), ctor)
+    if e.lastpeek == key:
+      self.labels.add("peek repeated alike")
+      if e.kind == "h":
+        self.labels.add("hub peek repeated alike")
+    e.lastpeek = key
 
   def use_hub(self, h, what, fn):
     """One use of hub h through fn(); returns fn's result or None when the
@@ -359,7 +417,7 @@ class Run(object):
     r = self.use_hub(e, "%s(hub)" % how, fn)
     if r is None:
       return None
-    return self.add_stream(r, e.m.copy(), e.fam, hard=e.hard)
+    return self.add_stream(r, e.m.copy(), e.fam, hard=e.hard, parent=e)
 
   # -- initial pool --------------------------------------------------------
   def init(self, spec):
@@ -405,9 +463,9 @@ class Run(object):
         self.add_stream(o, M(data), fam)
       self.labels.add("tee")
       return None
-    if kind.startswith("hub:"):
+    if kind.startswith("hub:") or kind.startswith("hubadv:"):
       n = spec[2]
-      sub = kind[4:]
+      sub = kind.split(":")[1]
       if sub == "list":
         raw, m = list(data), M(data)
       elif sub == "gen":
@@ -419,6 +477,17 @@ class Run(object):
         raw, m = Stream(*data), M([], data)
       h = thub(raw, n)
       ne = E("h", h, m, self.fam(), uses=n, hard=(sub == "per"))
+      if kind.startswith("hubadv:"):
+        # documented in StreamTeeHub.take: Stream.take(hub, n) on a hub nothing was
+        # read from yet consumes from every use at once
+        k = spec[3]
+        exp = m.first(k)
+        got = self.real(ne, "Stream.take(fresh hub, %d)" % k, lambda: Stream.take(h, k))[1]
+        if not same(got, exp):
+          self.fail("Stream.take(fresh hub, %d) -> %r, model says %r" % (k, got, exp))
+        scribble(got)
+        m.drop(len(exp))
+        self.labels.add("hub advanced for every use")
       self.pool.append(ne)
       self.labels.add("thub")
       return ne
@@ -429,6 +498,9 @@ class Run(object):
     """take / peek on a stream entry, or peek on a hub entry."""
     m = e.m
     kw = {} if ctor == "list" else {"constructor": tuple}
+    self.reading(e)
+    if op == "peek":
+      self.peeked(e, n, ctor)
     if n is None:
       exp = m.first(1)
       st_, r = self.real(e, "%s()" % op, lambda: getattr(e.obj, op)(),
@@ -463,6 +535,7 @@ class Run(object):
       self.fail("%s(%r) returned a %s" % (op, n, type(r).__name__))
     if not same(list(r), exp):
       self.fail("%s(%r) -> %r, model says %r (model %r)" % (op, n, r, exp, m))
+    scribble(r)       # the result is the caller's: later results must not show this
     if isinstance(n, float):
       if n != n:
         self.labels.add("n:nan")
@@ -500,6 +573,20 @@ class Run(object):
         self.fail("thub(%r, %d) is %r, not the object itself" % (obj, n, r))
       self.labels.add("thub non-iterable")
       return
+    if op == "rep":       # the sub-steps, over and over: a long history in a small case
+      k, subs = arg
+      self.trace.append("%d x (" % k)
+      start = len(self.trace)
+      for _ in range(k):
+        for sub in subs:
+          self.step(sub)
+          if len(self.trace) - start > 6:
+            del self.trace[start + 2:-2]
+      self.trace.append(")")
+      if k >= DEEP:
+        for sub in subs:
+          self.labels.add("deep:" + sub[0])
+      return
     e = pool[idx % len(pool)]
     self.trace.append("%s[%d:%s%s]%r" % (op, idx % len(pool), e.kind,
                                           "/%d" % e.uses if e.kind == "h" else "", arg))
@@ -530,11 +617,12 @@ class Run(object):
         r = self.use_hub(e, "hub.%s(%r)" % (op, n), lambda: getattr(e.obj, op)(n))
         if r is None:
           return
-        e = self.add_stream(r, e.m.copy(), e.fam, hard=e.hard)
+        e = self.add_stream(r, e.m.copy(), e.fam, hard=e.hard, parent=e)
       else:
         r = self.real(e, "%s(%r)" % (op, n), lambda: getattr(e.obj, op)(n))[1]
         if r is not e.obj:
           self.fail("%s(%r) did not return the stream itself" % (op, n))
+      self.stage(e, op)
       if c > e.m.remaining():
         self.labels.add("short " + op)
         self.nontrivial = True
@@ -573,11 +661,12 @@ class Run(object):
         r = self.use_hub(e, "hub.%s(%s)" % (op, arg), lambda: getattr(e.obj, op)(f))
         if r is None:
           return
-        e = self.add_stream(r, e.m.copy(), e.fam, hard=e.hard)
+        e = self.add_stream(r, e.m.copy(), e.fam, hard=e.hard, parent=e)
       else:
         r = self.real(e, "%s(%s)" % (op, arg), lambda: getattr(e.obj, op)(f))[1]
         if r is not e.obj:
           self.fail("%s(%s) did not return the stream itself" % (op, arg))
+      self.stage(e, op)
       if op == "map":
         e.m.fmap(f)
       else:
@@ -601,7 +690,7 @@ class Run(object):
         r = self.real(e, "copy()", lambda: e.obj.copy())[1]
         if r is e.obj:
           self.fail("copy() returned the stream itself")
-      self.add_stream(r, e.m.copy(), e.fam, pending=e.pending, hard=e.hard)
+      self.add_stream(r, e.m.copy(), e.fam, pending=e.pending, hard=e.hard, parent=e)
       return
 
     if op == "tee":
@@ -619,7 +708,7 @@ class Run(object):
       if len(set(id(o) for o in outs)) != arg:
         self.fail("tee outputs are not distinct objects")
       for o in outs:
-        self.add_stream(o, e.m.copy(), e.fam, pending=e.pending, hard=e.hard)
+        self.add_stream(o, e.m.copy(), e.fam, pending=e.pending, hard=e.hard, parent=e)
       self.labels.add("tee")
       return
 
@@ -636,6 +725,7 @@ class Run(object):
       if h is e.obj or not isinstance(h, Stream):
         self.fail("thub(stream, n) returned %r" % (h,))
       ne = E("h", h, e.m.copy(), e.fam, uses=arg, pending=e.pending, hard=e.hard)
+      ne.depth, ne.nskip = e.depth, e.nskip
       pool.append(ne)
       self.labels.add("thub")
       return
@@ -656,6 +746,7 @@ class Run(object):
     if op in ("next", "for"):
       k = arg
       exp = e.m.first(k)
+      self.reading(e)
       got = []
       stopped = False
       if op == "next":
@@ -695,6 +786,7 @@ class Run(object):
         return
       how = arg
       exp = list(e.m.p)
+      self.reading(e)
       fn = {"list": lambda: list(e.obj), "tuple": lambda: list(tuple(e.obj)),
             "comp": lambda: [v for v in e.obj]}[how]
       got = self.real(e, "%s(s)" % how, fn)[1]
@@ -734,13 +826,15 @@ class Run(object):
         r = self.use_hub(e, "hub.append(..)", lambda: e.obj.append(*args))
         if r is None:
           return
-        tgt = self.add_stream(r, e.m.copy(), e.fam, hard=e.hard)
+        tgt = self.add_stream(r, e.m.copy(), e.fam, hard=e.hard, parent=e)
+        self.stage(tgt, "append")
         if tgt.m.finite() and kind == "scalars":
           tgt.hard = True
         tgt.m.extend(add)
         return
     else:
       tgt = e
+    self.stage(tgt, "append")
 
     if args is not None:
       r = self.real(tgt, "append(%s)" % kind, lambda: tgt.obj.append(*args))[1]
@@ -779,6 +873,7 @@ class Run(object):
     if r is not tgt.obj:
       self.fail("append did not return the stream itself")
     pool.remove(o)        # handed over: dead
+    tgt.depth, tgt.nskip = max(tgt.depth, o.depth + 1), max(tgt.nskip, o.nskip)
     if tgt.m.finite() and o.pending:
       tgt.pending = tgt.pending or o.pending
     tgt.hard = tgt.hard or o.hard
@@ -790,11 +885,14 @@ class Run(object):
       if e.kind == "h" and e.uses == 0:
         continue
       k = int(min(K_INV, e.m.remaining()))
+      self.reading(e)
+      self.peeked(e, k, "list")
       got = self.real(e, "invariant peek(%d) %s" % (k, when), lambda: e.obj.peek(k))[1]
       exp = e.m.first(k)
       if not same(got, exp):
         self.fail("%s: a live %s shows %r next, model says %r"
                   % (when, "thub" if e.kind == "h" else "stream", got, exp))
+      scribble(got)
 
   # -- final drain ---------------------------------------------------------
   def drain(self, sched):
@@ -856,6 +954,58 @@ def run_history(case):
   return {"nontrivial": run.nontrivial, "labels": sorted(run.labels)}
 
 
+def run_deep(case):
+  """run_history in a forked child.  Harness safety, not an oracle: with
+  thousands of stacked stages a stage that is an interpreter frame (a
+  generator) does not always end in a RecursionError - CPython 3.12 can abort
+  the whole process ("Cannot recover from stack overflow") when such frames
+  alternate with itertools.tee objects.  A dead pool worker would hang the
+  run; a dead child is reported as what it is: the history did not yield what
+  the list model yields."""
+  rd, wr = os.pipe()
+  pid = os.fork()
+  if pid == 0:
+    code = 0
+    try:
+      os.close(rd)
+      null = os.open(os.devnull, os.O_WRONLY)
+      os.dup2(null, 2)          # the abort dumps one line per frame
+      try:
+        out = ("ok", run_history(case))
+      except Violation as v:
+        out = ("violation", v.detail, v.site)
+      except BaseException as exc:
+        out = ("exception", type(exc).__name__, str(exc)[:400])
+      blob = pickle.dumps(out)
+      while blob:
+        blob = blob[os.write(wr, blob):]
+    except BaseException:
+      code = 3
+    finally:
+      os._exit(code)
+  os.close(wr)
+  chunks = []
+  while True:
+    b = os.read(rd, 1 << 16)
+    if not b:
+      break
+    chunks.append(b)
+  os.close(rd)
+  status = os.waitpid(pid, 0)[1]
+  if os.WIFSIGNALED(status) or os.WEXITSTATUS(status) != 0 or not chunks:
+    how = ("signal %d" % os.WTERMSIG(status)) if os.WIFSIGNALED(status) else ("exit status %d" % os.WEXITSTATUS(status))
+    rp = [stp for stp in case["steps"] if stp[0] == "rep"]
+    nskip = sum(stp[2][0] for stp in rp for sub in stp[2][1] if sub[0] == "skip")
+    raise Violation("the interpreter died (%s) while this history ran instead of yielding the model's items: %r"
+                    % (how, case["steps"]), site="Stream.skip stacked deep" if nskip >= 600 else None)
+  out = pickle.loads(b"".join(chunks))
+  if out[0] == "ok":
+    return out[1]
+  if out[0] == "violation":
+    raise Violation(out[1], site=out[2])
+  raise Violation("unexpected %s: %s" % (out[1], out[2]))
+
+
 # --------------------------------------------------------------------------
 # strategies
 # --------------------------------------------------------------------------
@@ -865,6 +1015,14 @@ _scalar = st.one_of(st.integers(-9, 9), st.integers(-9, 9), st.none(), st.boolea
 _item = st.one_of(st.integers(-9, 9), st.integers(-9, 9), st.integers(-9, 9), _scalar,
                   st.text("ab", max_size=2),
                   st.tuples(st.integers(0, 3)), st.just(()))
+
+
+def _hubadv(n):
+  return st.one_of(
+    st.tuples(st.sampled_from(["hubadv:list", "hubadv:gen", "hubadv:stream"]),
+              st.lists(_item, max_size=n), st.integers(0, 3), st.integers(0, 5)),
+    st.tuples(st.just("hubadv:per"), st.lists(_scalar, min_size=2, max_size=3),
+              st.integers(0, 3), st.integers(0, 5)))
 
 
 def _inits(tier, hubs=True):
@@ -885,6 +1043,7 @@ def _inits(tier, hubs=True):
                           st.lists(_item, max_size=n), st.integers(0, 3)))
     opts.append(st.tuples(st.just("hub:per"), st.lists(_scalar, min_size=2, max_size=3),
                           st.integers(1, 3)))
+    opts.append(_hubadv(n))
   return st.one_of(*opts)
 
 
@@ -1009,11 +1168,75 @@ def strat_hub(tier):
     st.tuples(st.sampled_from(["hub:list", "hub:gen", "hub:stream"]),
               st.lists(_item, max_size=6), st.integers(0, 3)),
     st.tuples(st.just("hub:per"), st.lists(_scalar, min_size=2, max_size=3), st.integers(0, 3)))
+  hubinit = st.one_of(hubinit, hubinit, _hubadv(6))
   return st.fixed_dictionaries(dict(
     init=st.tuples(hubinit, st.lists(_inits(tier), max_size=1)).map(lambda t: [t[0]] + t[1]),
     steps=_steps(W_HUB, maxlen),
     inv=st.sampled_from(["each", "end"]),
     drain=_drain))
+
+
+_DEEP_MAPS = ["neg", "inc", "ident", "dbl"]      # "pair" would nest the items as deep as the stack
+W_DEEP_POST = dict(take=4, peek=3, next=2, list=1, copy=2, use=1, skip=1, limit=1, map=1, filter=1,
+                   append=1)
+W_DEEP_POST["for"] = 2
+
+
+def strat_deep(tier):
+  """A long history in a small case: 1-2 in-place stages (and, half of the time, a
+  small read between them) repeated k >= DEEP times on one stream, which may have
+  copies / be one use of a thub; then reads, copies and the drain as everywhere."""
+  kmax = 4000 if tier == "quick" else 6000
+  inits = st.one_of(
+    _inits(tier, hubs=False),
+    st.tuples(st.sampled_from(["list", "gen", "src"]), st.integers(3, 12).map(lambda k: list(range(k)))),
+    st.tuples(st.just("endless"), st.lists(st.integers(-9, 9), min_size=1, max_size=4)),
+    st.tuples(st.just("per"), st.lists(st.integers(-9, 9), min_size=2, max_size=4)))
+
+  def stage(t):
+    mp = st.tuples(st.just("map"), st.just(t), st.sampled_from(_DEEP_MAPS))
+    fl = st.tuples(st.just("filter"), st.just(t), st.sampled_from(sorted(PREDS)))
+    lm = st.tuples(st.just("limit"), st.just(t), st.one_of(
+      st.just(("big",)), st.tuples(st.just("rel"), st.integers(0, 3), st.none()),
+      st.integers(6, 12).map(lambda v: ("v", v)), st.just(("rel", 1, .25))))
+    sk = st.tuples(st.just("skip"), st.just(t), st.sampled_from(
+      [("v", 0), ("v", 0), ("v", 0), ("v", 1), ("v", -1), ("v", .4), ("v", -0.)]))
+    ap0 = st.tuples(st.just("append"), st.just(t), st.sampled_from([("list", []), ("gen", []), ("lists", [], [])]))
+    ap1 = st.tuples(st.just("append"), st.just(t), st.tuples(st.sampled_from(["list", "gen"]),
+                                                           st.lists(_item, min_size=1, max_size=1)))
+    cheap = st.one_of(lm, sk, ap0, ap1)          # the model step costs O(1) list operations
+    anyst = st.one_of(mp, mp, fl, lm, sk, ap0)
+    return st.one_of(
+      st.tuples(mp), st.tuples(mp), st.tuples(mp), st.tuples(fl), st.tuples(lm), st.tuples(sk), st.tuples(ap0),
+      st.tuples(ap1), st.tuples(mp, anyst), st.tuples(anyst, anyst), st.tuples(anyst, anyst),
+      st.tuples(cheap, cheap)).map(list)
+
+  def read(t):
+    return st.one_of(
+      st.tuples(st.just("take"), st.just(t), st.tuples(st.sampled_from([("v", None), ("v", 1), ("v", 0), ("v", 1.5)]),
+                                                      st.just("list"))),
+      st.tuples(st.just("peek"), st.just(t), st.tuples(st.sampled_from([("v", None), ("v", 1), ("v", 2), ("rel", 1, None)]),
+                                                      st.sampled_from(["list", "tuple"]))))
+
+  # (steps before, index of the stream the stages go on)
+  pres = st.sampled_from([
+    ([], 0), ([], 0), ([("copy", 0, None)], 0), ([("copy", 0, None)], 1),
+    ([("hub", 0, 2), ("use", 0, "Stream")], 1), ([("hub", 0, 3), ("use", 0, "iter")], 1),
+    ([("tee", 0, 2)], 1), ([("hub", 0, 1), ("use", 0, "genexp"), ("copy", 1, None)], 1),
+  ])
+
+  def build(t):
+    (pre, tgt), subs, rd, where, k, post, inv, drain, init = t
+    subs = list(subs)
+    if rd is not None:
+      subs.insert(where % (len(subs) + 1), rd)
+    return dict(init=[init], steps=[list(x) for x in pre] + [("rep", 0, (k, subs))] + list(post),
+                inv=inv, drain=drain)
+
+  return pres.flatmap(lambda pt: st.tuples(
+    st.just(pt), stage(pt[1]), st.one_of(st.none(), read(pt[1])), st.integers(0, 2),
+    st.integers(DEEP, kmax), _steps(W_DEEP_POST, 6), st.sampled_from(["each", "end"]), _drain,
+    inits)).map(build)
 
 
 def grid(tier, shard, nshards):
@@ -1075,7 +1298,7 @@ CLAUSES = [
                  "periodic": .1, "hub use": .05, "n:None": .05, "short skip": .02,
                  "short limit": .015, "StopIteration": .1,
                  "n:next to a half, decisive": .02, "n:next to an integer": .01,
-                 "cut:next to a half": .03},
+                 "cut:next to a half": .03, "hub peek repeated alike": .05},
          doc="general histories over a pool of streams and thubs vs the list model"),
   Clause("copies", strat_copies, run_history, quick=2000, thorough=16000,
          floors={"interleaved copies": .2, "tee": .1, "thub": .1,
@@ -1083,8 +1306,16 @@ CLAUSES = [
          doc="one source, copies/tee/thub made early, consumption interleaved between them"),
   Clause("hub", strat_hub, run_history, quick=1500, thorough=10000,
          floors={"hub exhausted": .3, "hub use": .2, "hub exhausted inside the history": .1,
-                 "hub peek": .02, "hub copy": .03, "n:next to a half, decisive": .02},
+                 "hub peek": .02, "hub copy": .03, "n:next to a half, decisive": .02,
+                 "hub peek repeated alike": .08, "hub advanced for every use": .08},
          doc="thub histories: exactly n uses of every kind, peek/copy use none, IndexError after"),
+  Clause("deep", strat_deep, run_deep, quick=160, thorough=1200,
+         floors={"read through %d+ stages" % DEEP: .5, "deep:map": .12, "deep:filter": .04,
+                 "deep:limit": .06, "deep:skip": .04, "deep:append": .06,
+                 "interleaved copies": .2, "hub use": .1},
+         doc="histories thousands of steps long: the same 1-2 in-place stages (map filter skip limit append), "
+             "with or without a small read in between, stacked 2600..4000 (thorough ..6000) times on one stream "
+             "that may have copies or be one use of a thub, then read"),
   Enumerated("counts", grid, run_history, shards={"quick": 4, "thorough": 8},
              doc="every (source kind, length, consumed prefix, take/peek/skip/limit, count) in a small box, plain and behind a filter/map stage"),
 ]
